@@ -23,6 +23,9 @@ THEOREMS = [
     "Gwcs.Eff.restores_G",
     "Gwcs.Eff.solverTrace_guarded",
     "Gwcs.Eff.unbracketed_leaks",
+    "Gwcs.Eff.guarded_append",
+    "Gwcs.Eff.sequence_restores",
+    "Gwcs.Eff.unbracketed_filter_and_print_leak",
 ]
 RULE = ("case = (entry point, mode, WCS with a counting user transform, set of crash positions k): the call is run once to count the "
         "evaluations N of the user transform, then with the k-th evaluation raising (quick: k in {1,2,3,N-1,N} plus a sample; thorough: every "
